@@ -9,7 +9,13 @@ def run(tier, seed, replay=None):
     check = Check('C01', tier, seed)
     if THEOREMS:
         prove(check, 'theories/Props_C01.v', THEOREMS)
-    router_stage(check, 'C01', 'ps', tier, seed, replay, 150, 6000)
-    check.coverage['rule'] = PS_RULE
+    head = open(replay).read(4000) if replay else ''
+    if not replay or 'case srv ' not in head:
+        router_stage(check, 'C01', 'ps', tier, seed, replay, 150, 6000)
+    if not replay or 'case srv ' in head:
+        # registration order on the real server: first registrations racing for a fresh topic, then a publisher
+        # (the srv engine of C11, judged here for what concerns pub/sub delivery only)
+        differential(check, 'C01', 'srv', 'srv', tier, seed + 3, replay, 1, 6, extract_between_bars, sample_lines=6, timeout=1800, driver_extra=['c01'], shards=8)
+    check.coverage['rule'] = PS_RULE + ' ; srv (real server over loopback QUIC): 25 rounds per case in which eight first registrations race for a fresh topic; every subscriber acknowledged in the race must receive the 3 messages of a publisher that registers afterwards; confusable topic names must not share traffic'
     check.coverage['trusted_base'] = TRUSTED_BASE_COMMON + ROUTER_TRUST
     return check.finish()
